@@ -328,9 +328,20 @@ def r3_early_returns(ck, P):
                     if pair:
                         eq.add(pair)
                     else:
-                        for a in f.atoms(br.a[0]):
-                            if a[0] == 'arg':
-                                reads_param.add(a[1])
+                        # parameters the condition itself looks at; the status of a call that received the parameter (the storing
+                        # call failed: nothing was installed) is not a test of the parameter
+                        seen_ = set(); work_ = [br.a[0]]
+                        while work_:
+                            o_ = work_.pop()
+                            if o_[0] == 'a':
+                                reads_param.add(o_[1]); continue
+                            y_ = f.v(o_)
+                            if y_ is None or y_.i in seen_ or y_.op == 'call':
+                                continue
+                            seen_.add(y_.i)
+                            if y_.op == 'load':
+                                work_.append(y_.a[0]); continue
+                            work_.extend(q for q in y_.a if q and q[0] in ('v', 'a'))
                         noneq.append(br)
                 if eq:
                     missing = {(k, fl) for k, fl in S if (k, fl) not in eq and k in {q for q, _ in S}}
